@@ -124,6 +124,26 @@ func shrink(t *testing.T, p props.Property, sc *sim.Scenario, v props.Violation,
 				progress = true
 			}
 		}
+		// flows: delta-debugging over the hop plans first (halves, quarters, ...), so that long TTL
+		// ranges collapse in a few steps
+		for fi := range cur.Flows {
+			for chunk := len(cur.Flows[fi].Hops) / 2; chunk >= 2; chunk /= 2 {
+				for start := 0; start < len(cur.Flows[fi].Hops); {
+					c := cur.Clone()
+					h := c.Flows[fi].Hops
+					end := start + chunk
+					if end > len(h) {
+						end = len(h)
+					}
+					c.Flows[fi].Hops = append(append([]sim.HopPlan(nil), h[:start]...), h[end:]...)
+					if try(c) {
+						progress = true
+						continue // same start: the list shifted left
+					}
+					start += chunk
+				}
+			}
+		}
 		// flows: whole hop plans, then single replies
 		for fi := range cur.Flows {
 			for hi := len(cur.Flows[fi].Hops) - 1; hi >= 0 && hi < len(cur.Flows[fi].Hops); hi-- {
